@@ -1,9 +1,10 @@
 (* C10 -- no-op rewrites are the identity; split/join of byte intervals round-trips; alignment.
    Statements only.  Model: IU/Model.v (hand model of intervalutils.split_byte_interval / join_byte_intervals, run against the
    implementation on random intervals: both the split and the joined result are compared); proofs: IU/Proofs.v.
-   Partial: join(split(I)) = I and the identity of an empty rewrite are decided on the implementation by harness/c10.py. *)
+   IU/RoundTrip.v proves join(split(I)) = I in the model.  Partial: the identity of an empty rewrite through apply() and the
+   alignment of blocks after a rewrite are decided on the implementation by harness/c10.py. *)
 From Coq Require Import ZArith List Bool Arith.
-From GR Require Import Base.Result IR.State IU.Model IU.Proofs.
+From GR Require Import Base.Result IR.State IU.Model IU.Proofs IU.RoundTrip.
 Import ListNotations.
 Open Scope Z_scope.
 
@@ -36,6 +37,27 @@ Proof. exact align_address_spec. Qed.
 Theorem C10_no_padding_when_aligned :
   forall address boundary, 0 < boundary -> address mod boundary = 0 -> align_address address boundary = address.
 Proof. exact align_address_aligned. Qed.
+
+(* the round trip: for every fully initialized interval whose blocks are sorted by offset and start inside it, and whose offset-keyed
+   tables have one entry per key, joining the intervals that split_byte_interval made gives the interval back: same address, size,
+   bytes and blocks (identities, offsets, sizes, kinds), and every symbolic expression and table entry is found at its old offset.
+   Without alignment entries no padding is inserted, whatever the nop length. *)
+Theorem C10_join_split_is_identity :
+  forall nop next iv,
+    Z.of_nat (length (iv_contents iv)) = iv_size iv ->
+    NoDup (map fst (iv_symex iv)) -> Forall (fun m => NoDup (map fst m)) (iv_tabs iv) ->
+    wf_blocks iv ->
+    exists r, join_byte_intervals nop [] next (split_byte_interval iv) = Ok r /\ same_ival r iv (iv_blocks iv).
+Proof. exact join_split_is_identity. Qed.
+
+Example C10_round_trip_hypotheses_hold :
+  let iv := mk_ival 4096 6 [1; 2; 3; 4; 5; 6] [mk_iblk 0 0 2 true; mk_iblk 1 2 3 true; mk_iblk 2 5 1 false] [(3, 7)] [[]; []; []] in
+  Z.of_nat (length (iv_contents iv)) = iv_size iv /\ NoDup (map fst (iv_symex iv)) /\ Forall (fun m => NoDup (map fst m)) (iv_tabs iv) /\
+  wf_blocks iv /\ length (split_byte_interval iv) = 3%nat.
+Proof.
+  cbn. split; [reflexivity|]. split; [constructor; [intros []|constructor]|]. split; [repeat constructor|].
+  split; [|reflexivity]. split; [cbn; repeat split; discriminate|repeat constructor; cbn; discriminate].
+Qed.
 
 Example C10_nonvacuous :
   let iv := mk_ival 4096 6 [1; 2; 3; 4; 5; 6] [mk_iblk 0 0 2 true; mk_iblk 1 2 3 true; mk_iblk 2 5 1 false] [(3, 7)] [[]; []; []] in
